@@ -26,7 +26,8 @@ import (
 // 1000+r = the final collect of reader r (after every Add has returned).
 // After MeterProvider.Shutdown returned, one token per periodic reader:
 //   X:<reader>:<max Export calls in flight>:<Export calls started after Shutdown returned>:<started>:<returned>:<Collect after Shutdown ok|err>
-// (the ghost counters of the fine-grained reader LTS, Otel/C02/ReaderLts.lean).
+// (the ghost counters of the fine-grained reader LTS, Otel/C02/ReaderLts.lean), and one token per ManualReader:
+//   M:<reader>:<Collect after Shutdown ok|err>:<metrics it carried>:<second Shutdown ok|err>   (Otel/C02/ManualLts.lean).
 func TestVerifC02Conc(t *testing.T) {
 	out := vOpen(t)
 	defer out.Close()
@@ -142,6 +143,25 @@ func TestVerifC02Conc(t *testing.T) {
 			_ = s.readers[r].Shutdown(ctx)
 			runtime.Gosched()
 			xs = append(xs, fmt.Sprintf("X:%d:%d:%d:%d:%d:%s", r, e.maxIn.Load(), e.late.Load(), e.begun.Load(), e.ended.Load(), after))
+		}
+		// … and on every ManualReader: a further Collect is refused and carries nothing, a further Shutdown is refused
+		for r, rd := range s.readers {
+			if s.exps[r] != nil {
+				continue
+			}
+			var rm metricdata.ResourceMetrics
+			after, n := "ok", 0
+			if err := rd.Collect(ctx, &rm); err != nil {
+				after = "err"
+			}
+			for _, sm := range rm.ScopeMetrics {
+				n += len(sm.Metrics)
+			}
+			second := "ok"
+			if err := rd.Shutdown(ctx); err != nil {
+				second = "err"
+			}
+			xs = append(xs, fmt.Sprintf("M:%d:%s:%d:%s", r, after, n, second))
 		}
 		s.mu.Lock()
 		recs := strings.Join(append(append([]string{}, s.recs...), xs...), " ")
